@@ -32,7 +32,10 @@ Record case := {
   k_table : list (list (list oQ * list oQ));    (* [vector][realization] = (objectives, constraints) *)
   k_fouts : list (list fout);                   (* [vector][filter] *)
   k_requests : list (nat * nat);                (* rows of the evaluator call: (vector, realization) *)
-  k_out : obs_outcome
+  k_out : obs_outcome;
+  k_step : option (bool * Z)                    (* results observed through a plan step (FINISHED_EVALUATION data):
+                                                   (true = optimizer step without allow_nan | false = evaluator step,
+                                                   exit code of the step); None: EnsembleEvaluator.calculate directly *)
 }.
 
 Definition oq_eqb (a b : oQ) : bool := option_eqb Qeqb a b.
@@ -104,6 +107,22 @@ Definition check_case (k : case) : bool :=
          (* only inside the 0/0 region (no surviving realization carries weight) is an abort tolerated *)
          Z.eqb code (exit_code_of "TOO_FEW_REALIZATIONS") && existsb (fun r => functions_undefined (r_functions r)) rs
      | _, _ => false
+     end
+  (* entry through a plan step: the exit code is the one of the model (Model/Ensemble.v: optimizer_step_exit /
+     evaluator_step_exit) on the results of all vectors of the batch; aborted = nothing was delivered *)
+  && match k_step k with
+     | None => true
+     | Some (is_opt, code) =>
+         match calculate_sets c (eval_batch tbl (k_B k) R) (k_fouts k) with
+         | Missing => false
+         | Aborted => Z.eqb code (exit_code_of "TOO_FEW_REALIZATIONS")
+         | Done rs =>
+             let aborted := match k_out k with ObsResults _ => false | _ => true end in
+             Z.eqb code (if is_opt
+                         then optimizer_step_exit aborted (cfg_rmin c) false
+                                                  (map (fun r => (is_none (r_functions r), r_failed r)) rs)
+                         else evaluator_step_exit aborted (map (fun r => is_none (r_functions r)) rs))
+         end
      end.
 
 (* constructors used by the harness *)
